@@ -72,6 +72,18 @@ func cases(tier string, seed int64) []eng.Case {
 		for j := 0; j < np; j++ {
 			c.PBits = append(c.PBits, eng.Pick(r, 36, 45, 55, 60, 61))
 		}
+		if i%12 == 11 {
+			// many digits: small Q primes under one or two 61-bit auxiliary primes (5..16 digits), where the lazy
+			// accumulation of the P rows runs out of headroom (2^64/p ~ 8) long before the Q rows do
+			c.QBits, c.PBits = nil, nil
+			for j := 0; j < 10+r.N(7); j++ {
+				c.QBits = append(c.QBits, eng.Pick(r, 30, 36, 36, 40, 45))
+			}
+			c.PBits = []int{61}
+			if r.Bool() {
+				c.PBits = []int{61, 61}
+			}
+		}
 		nth := uint64(2) << c.LogN
 		if c.Ring == "ci" {
 			nth <<= 1
